@@ -179,17 +179,17 @@ func RandomProgram(seed uint64, o RandomOpts) *Program {
 			}
 			// D_conv exclusions (shapes whose generated code does not compile at the pinned commit are
 			// a C01 matter, outside this technique)
-			if f.Card == CardMap && (f.Kind == KBytes || f.Kind == KTime || f.Kind == KDuration) {
+			if f.Card == CardMap && f.Kind == KBytes {
 				f.Card = CardList
+			}
+			if f.Card == CardMap && (f.Kind == KTime || f.Kind == KDuration) {
+				f.Nullable = false
 			}
 			if f.Card != CardOne && f.Kind == KMessage && len(p.Msg(f.Ref).Fields) == 0 {
 				f.Card = CardOne
 			}
-			if f.Card != CardOne && (f.Kind == KTime || f.Kind == KDuration) {
-				f.Nullable = false
-			}
-			if f.Card != CardOne && f.Cast != "" && f.Cast != DurationCastName {
-				f.Cast = ""
+			if f.Card == CardMap && f.Cast != "" && f.Cast != DurationCastName {
+				f.Cast = "" // casttype on a map field casts the map type itself
 			}
 			if f.Card == CardMap && f.Cast != "" {
 				f.Cast = ""
